@@ -12,8 +12,8 @@ cargo test --workspace --offline > seed/confirm-tests.log 2>&1
 PASS=$(grep -E "^test result: ok" seed/confirm-tests.log | sed -E 's/.* ([0-9]+) passed.*/\1/' | paste -sd+ | bc)
 FAIL=$(grep -cE "^test result: FAILED|^error" seed/confirm-tests.log)
 echo "tests-with-patch: passed=$PASS failed_markers=$FAIL" | tee -a "$LOG"
-sh seed/demo/run.sh > seed/confirm-demo-with.log 2>&1; echo "demo-with-patch exit=$?" | tee -a "$LOG"
+bash seed/demo/run.sh > seed/confirm-demo-with.log 2>&1; echo "demo-with-patch exit=$?" | tee -a "$LOG"
 git apply -R seed/patch.diff
-sh seed/demo/run.sh > seed/confirm-demo-without.log 2>&1; echo "demo-without-patch exit=$?" | tee -a "$LOG"
+bash seed/demo/run.sh > seed/confirm-demo-without.log 2>&1; echo "demo-without-patch exit=$?" | tee -a "$LOG"
 git status --short | grep -v "^??" | head -3 | tee -a "$LOG"
 rm -rf "$W/target"
